@@ -59,6 +59,9 @@ Probes(a) ==
                       V("str", <<>>), V("none", <<>>), V("seq", <<1>>)}
     [] a = "data" -> {V("seq", <<>>), V("seq", <<0>>), V("seq", <<127, 0, 1>>), V("seq", <<128>>),
                       V("seq", <<-1>>), V("seq", <<0, 128>>), V("seq", <<0, 256, 0>>),
+                      \* long payloads (a bulk check must not be laxer than the per-byte one)
+                      V("seq", [i \in 1..70 |-> i]), V("seq", [i \in 1..70 |-> IF i = 35 THEN 200 ELSE 1]),
+                      V("seq", [i \in 1..130 |-> IF i = 130 THEN 128 ELSE 0]),
                       I(5), V("none", <<>>), V("badseq", <<>>), V("float", <<5>>)}
     [] OTHER -> {I(Lo(a) - 1), I(Lo(a)), I(Lo(a) + 1), I(Hi(a) - 1), I(Hi(a)), I(Hi(a) + 1),
                  I(Hi(a) + 1000), V("float", <<5>>), V("float", <<10>>), V("str", <<>>), V("none", <<>>),
